@@ -302,6 +302,7 @@ pub fn run_check(def: &'static PropDef, tier: Tier, seed: u64) -> RunOutcome {
     let mut fps: HashSet<u64> = HashSet::new();
     let mut seen: BTreeMap<String, BTreeSet<String>> = BTreeMap::new();
     let mut crashes = 0u64;
+    let mut harness_errors = 0u64;
     let mut done = 0;
     while done < nshards {
         match rx.recv() {
@@ -321,6 +322,11 @@ pub fn run_check(def: &'static PropDef, tier: Tier, seed: u64) -> RunOutcome {
                     }
                 }
                 for v in d.violations {
+                    if is_harness_panic(&v.signature) {
+                        harness_errors += 1;
+                        eprintln!("[{}] HARNESS ERROR (a panic inside /verif's own code, not a verdict about the property): {} - {}", def.id, v.signature, v.what);
+                        continue;
+                    }
                     merged.violations.push(v);
                 }
                 for s in d.samples {
@@ -350,6 +356,11 @@ pub fn run_check(def: &'static PropDef, tier: Tier, seed: u64) -> RunOutcome {
                     }
                 };
                 let tail: String = stderr.lines().take(6).collect::<Vec<_>>().join("\n");
+                if is_harness_panic(&sig) {
+                    harness_errors += 1;
+                    eprintln!("[{}] HARNESS ERROR (a panic inside /verif's own code, not a verdict about the property) in scenario {k}: {what}", def.id);
+                    continue;
+                }
                 merged.violations.push(Violation {
                     signature: sig,
                     what,
@@ -481,6 +492,9 @@ pub fn run_check(def: &'static PropDef, tier: Tier, seed: u64) -> RunOutcome {
 
     let exit_code = if violation_count > 0 {
         1
+    } else if harness_errors > 0 {
+        eprintln!("[{}] INCONCLUSIVE: {harness_errors} harness error(s), see above", def.id);
+        2
     } else if merged.evaluations == 0
         || merged.inconclusive * 10 > merged.evaluations.max(1)
         || distinct_nontrivial < (def.nt_floor)(tier)
@@ -498,6 +512,12 @@ pub fn run_check(def: &'static PropDef, tier: Tier, seed: u64) -> RunOutcome {
         0
     };
     RunOutcome { exit_code }
+}
+
+/// A panic whose location is in the harness crate itself (cargo reports those relative to the crate root,
+/// "src/...", while the repository's files come with their /repo/... path and are shortened to "protocols/...").
+fn is_harness_panic(signature: &str) -> bool {
+    signature.starts_with("panic:src/") || signature.contains("-panic:src/")
 }
 
 /// Re-run one scenario in-process, verbosely.
